@@ -45,8 +45,8 @@ def main():
                     'parse_iff_derives (RD model returns e iff the stratified C grammar derives e, with the fuel the model really uses), derives_functional (one AST per token list); '
                     'accept_iff_plural_y (accepted token lists = language of plural.y\'s ambiguous grammar); parse_string_iff / accept_string_iff / reject_string_iff (end to end on strings, '
                     'no third outcome); lr_iff_parse / lr_iff_derives / lr_accept_iff_plural_y / lr_parse_string_iff (rply\'s LR driver over the LALR tables dumped from the live parser returns '
-                    'e iff the C grammar derives e). OUTSTANDING: the LR driver model is not proved free of its internal crash outcome on REJECTED inputs (covered by the plural-lr stream); '
-                    'rply\'s table construction is not modelled.')
+                    'e iff the C grammar derives e); lr_eq_parse / lr_never_crashes / lr_parse_string_eq (LR driver model = RD model as functions; the driver never reaches its internal crash outcome). '
+                    'OUTSTANDING: rply\'s table construction is not modelled (its output is dumped and proved about); lexer loop / LR driver loop / action functions are hand-modelled, tied by the streams.')
 
 if __name__ == '__main__':
     common.main_wrapper(main)
